@@ -2,6 +2,8 @@
 C09 — JSON serialization is lossless or loud, and policy-gated.
 -/
 import FiddleModel.Model.Serialize
+import FiddleModel.Lemmas.RebuildL
+import FiddleModel.Lemmas.CodegenL
 
 namespace Fiddle
 
@@ -69,5 +71,52 @@ theorem C09_denied_raises (p : Policy) (m n : String) (acc : List (String × Str
 
 example : encodeLatin1 (decodeLatin1 [92, 117, 48, 48, 52, 49]) = some [92, 117, 48, 48, 52, 49] :=
   C09_bytes_roundtrip _      -- b'\\u0041'
+
+/-! ## The structure of the document
+
+`dump_json` walks the configuration with a memoized post-order traversal and emits one entry of
+the `objects` table per memoizable object, children replaced by `{"type": "ref", "key": …}` to
+earlier entries: the table is `rebuild`'s result heap. `load_json` creates the objects entry by
+entry, resolving references to the objects already created: `straightLine … .run`. -/
+
+/-- Loading what was dumped recreates the dumped table exactly ... -/
+theorem C09_load_of_dump (h : Heap) (wf : h.WellFormed) (hd : ∀ o ∈ h, o.defaults = [])
+    (root r : GVal) (st : RbSt) (hb : rebuild h root = .ok (r, st)) :
+    (straightLine st.out r).run = some (r, st.out) := by
+  obtain ⟨s, m⟩ := rebuildVal_step h wf _ root {} r st hb (RbSt.inv_init h)
+  have hwf := rebuilt_wellFormed h st s.inv
+  have hdef : ∀ o' ∈ st.out, o'.defaults = [] := by
+    intro o' ho'
+    obtain ⟨j, hj⟩ := List.getElem?_of_mem ho'
+    obtain ⟨i, o, _, ho, rfl⟩ := rebuilt_out_object h st s.inv j o' hj
+    exact hd o (List.mem_of_getElem? ho)
+  have hr : ∀ j, r = .ref j → j < st.out.length := by
+    intro j hj
+    rw [m.1] at hj
+    cases root with
+    | atom t => simp [imageOf] at hj
+    | ref k =>
+      have hk := m.2 k rfl
+      cases hg : rbGet st.memo k with
+      | none => simp [hg] at hk
+      | some j' =>
+        simp only [imageOf, hg, Option.getD_some, GVal.ref.injEq] at hj
+        subst hj; exact s.inv.fresh k _ hg
+  obtain ⟨env, hrun, hl⟩ := runAssigns_straight st.out [] [] (by intro j hj; simp at hj)
+    (by intro i o ho c hc j hj; exact hwf i o (by simpa using ho) c hc j hj) hdef
+  unfold CProg.run straightLine
+  simp only [List.length_nil, List.nil_append] at hrun hl
+  simp only [hrun]
+  cases r with
+  | atom t => simp [CExpr.eval]
+  | ref j => simp [CExpr.eval, hl j (hr j rfl)]
+
+/-- ... and that table is, path for path, the input configuration: types, leaves, callables,
+    tags and sharing are those of the input (lossless). -/
+theorem C09_dump_is_faithful (h : Heap) (wf : h.WellFormed) (root r : GVal) (st : RbSt)
+    (hb : rebuild h root = .ok (r, st)) (p : Path) :
+    followPath st.out r p = (followPath h root p).map (imageOf st.memo) := by
+  obtain ⟨s, m⟩ := rebuildVal_step h wf _ root {} r st hb (RbSt.inv_init h)
+  rw [m.1]; exact followPath_rebuilt h st s.inv p root m.2
 
 end Fiddle
